@@ -61,6 +61,7 @@ static int vc_r;
 #define __CPROVER_return_value vc_r
 #undef __CPROVER_ensures
 #define __CPROVER_ensures(c) __CPROVER_assert(c, "postcondition: do_space " #c);
+extern struct Chunk *g_first_prev; extern const unsigned CT_VBRACE_OPEN_V; _Bool c02_word_before_vbrace(unsigned), c02_word_after_vbrace(unsigned);
 void h_do_space_vc(void)
 {
    int msp;
@@ -68,12 +69,19 @@ void h_do_space_vc(void)
    __CPROVER_havoc_object(P0);      /* the whole pool array */
    __CPROVER_havoc_object(PN);
    mk_chunk(P0, 0); mk_chunk(P1, 0); mk_chunk(P2, 0); mk_chunk(P3, 0); mk_chunk(PN, 1);
-   __CPROVER_assume(ALL_IARF_IN_RANGE && OPT_RANGE_pos_bool && OPT_RANGE_pos_constr_comma && g_rule_count == 0 && g_fwd_fuel <= 6);
+   __CPROVER_assume(ALL_IARF_IN_RANGE && OPT_RANGE_pos_bool && OPT_RANGE_pos_constr_comma && g_rule_count == 0 && g_fwd_fuel <= 6 && g_first_prev == 0);
    vc_r = w_do_space(P0, P1, &msp);
    __CPROVER_ensures(vc_r >= 0 && vc_r <= 3)
    __CPROVER_ensures(g_rule_count >= 1)
+#ifndef C02_CLAUSE_ONLY
    ATTRIBUTION_ENSURES_MAIN
    ATTRIBUTION_ENSURES_KNOWN
+#endif
+   /* C02 ("no two tokens fuse"): a virtual open brace is empty and the fusion guard of space_text() compares a chunk only with its direct successor, so between a brace-less
+    * else/do and the word that starts its statement nothing but do_space(vbrace, word) keeps the blank: it must never answer REMOVE there */
+   __CPROVER_assert(!(Chunk_m_type(P0) == CT_VBRACE_OPEN_V && g_first_prev != 0 && c02_word_before_vbrace(Chunk_m_type(g_first_prev)) && c02_word_after_vbrace(Chunk_m_type(P1))) || vc_r != 2,
+                    "postcondition: do_space C02 the word after a brace-less else/do is never glued to it (no REMOVE across the empty virtual brace)");
+   if (Chunk_m_type(P0) == CT_VBRACE_OPEN_V && g_first_prev != 0 && c02_word_before_vbrace(Chunk_m_type(g_first_prev)) && c02_word_after_vbrace(Chunk_m_type(P1))) { __CPROVER_assert(0, "VACUITY_CANARY do_space: word after brace-less else"); }
    if (g_rule_id == RULE_sp_arith) { __CPROVER_assert(0, "VACUITY_CANARY do_space: rule sp_arith reachable"); }
    if (g_rule_id == 0) { __CPROVER_assert(0, "VACUITY_CANARY do_space: non-option rule reachable"); }
    if (g_rule_id == RULE_sp_before_semi) { __CPROVER_assert(0, "VACUITY_CANARY do_space: rule sp_before_semi reachable"); }
